@@ -10,6 +10,9 @@ CHECKS = {
  'C08': dict(tech='TLA+ step-machine model of both verifiers over input shapes (VerifierRobust.tla) + framing alphabet (Framing.tla), exhaustive in TLC; every shape and mutation replayed on real decoders/verifiers',
              text='TLC explores every combination of variable-length-part lengths (0..4 / 0..10) against the key on the transcribed step lists (no out-of-range access, inconsistent shapes end in an error) and enumerates every framing mutation of the encodings; all are applied to real proofs/witnesses (direct, compressed and raw encodings) and the real decode/verify outcome must be error or acceptance, never a panic or crash.',
              note='Content-level corruption inside a point encoding is sampled by bit flips; arbitrary byte strings are covered structurally, not by coverage-guided fuzzing. Allocation-bomb prefixes run under ulimit -v 8GB.', ref='6 C08'),
+ 'C10': dict(tech='TLA+ concurrency model of the shared lookup-blueprint cache and option slice (SharedCS.tla), exhaustive in TLC; every schedule replayed deterministically on the real solver through build-tag gates; stress/history differential (and -race in thorough)',
+             text='TLC explores all interleavings of 2 concurrent Solve calls on one lookup-table system at statement and at gate granularity and the option-slice append design; all 224 gate-level schedules are replayed on the real code with a blocking-hook scheduler and the entries each caller really reads are compared with the model and with its own table; nbTasks sweep, call histories and concurrent Solve/Prove/Verify sharing cs, pk, vk, proofs and an option slice with spare capacity are compared with sequential results.',
+             note='Known open finding F5 (shared lookup cache) is reproduced deterministically and reported as KNOWN-FINDING; shared state outside the modelled objects is only seen by the stress differential / race detector.', ref='6 C10'),
  'C11': dict(tech='TLA+ self-composition model of the compile pipeline (CompileDet.tla) over range-over-map sites extracted from the sources; recorded compilation histories validated by TLC (CompileDetTrace.tla)',
              text='Every range-over-map site on the compile path is extracted from the current sources and model-checked for order sensitivity; every corpus circuit (13 feature families, both builders, large and small fields) is compiled repeatedly - sequentially, in parallel goroutines, interleaved with other circuits, in separate processes - and TLC validates that the recorded digest history is a behaviour of a deterministic compiler.',
              note='Determinism is judged on the serialized bytes; a nondeterministic site not reached by the corpus is only seen by the extractor (reported as unreviewed).', ref='6 C11'),
